@@ -26,6 +26,7 @@ import (
 	"github.com/attestantio/go-eth2-client/spec/phase0"
 	"github.com/attestantio/vouch/services/beaconblockproposer"
 	standardproposer "github.com/attestantio/vouch/services/beaconblockproposer/standard"
+	"github.com/attestantio/vouch/services/metrics"
 	nullmetrics "github.com/attestantio/vouch/services/metrics/null"
 	"github.com/attestantio/vouch/verifmc/mc"
 	"github.com/attestantio/vouch/verifmc/mcontext"
@@ -89,6 +90,10 @@ func (r *c05Relay) UnblindProposal(ctx context.Context, opts *builderapi.Unblind
 }
 
 type c05Env struct {
+	// prom: the proposer gets a metrics service that presents as Prometheus (C05 only: the collectors are
+	// process-wide state, written by the first execution of a worker and read by later ones, which the race
+	// detector of C17 would hold against the code)
+	prom     bool
 	version  spec.DataVersion
 	blinded  bool
 	slotOff  phase0.Slot
@@ -220,6 +225,13 @@ type promPresenting struct{ nullmetrics.Service }
 
 func (promPresenting) Presenter() string { return "prometheus" }
 
+func c05Monitor(e *c05Env) metrics.Service {
+	if e.prom {
+		return promPresenting{}
+	}
+	return &nullmetrics.Service{}
+}
+
 func c05Payload(b byte) *bellatrix.ExecutionPayload {
 	return &bellatrix.ExecutionPayload{FeeRecipient: bellatrix.ExecutionAddress{1}, BlockHash: phase0.Hash32{b}, ExtraData: []byte{}}
 }
@@ -290,7 +302,7 @@ func c05Build(e *c05Env) *standardproposer.Service {
 		accts.byIndex[8] = e.acct2
 	}
 	params := []standardproposer.Parameter{
-		standardproposer.WithLogLevel(zerolog.Disabled), standardproposer.WithMonitor(promPresenting{}),
+		standardproposer.WithLogLevel(zerolog.Disabled), standardproposer.WithMonitor(c05Monitor(e)),
 		standardproposer.WithChainTime(newChainTime(-int64(c05Slot)*int64(12*time.Second), 12*time.Second, 32)),
 		standardproposer.WithProposalDataProvider(e), standardproposer.WithValidatingAccountsProvider(accts),
 		standardproposer.WithExecutionChainHeadProvider(e), standardproposer.WithProposalSubmitter(e),
@@ -332,7 +344,7 @@ func c05Units(tier string) []hx.Unit {
 				}
 			}
 			u.Body = func() {
-				*e = c05Env{version: cb.v, blinded: cb.blinded, auction: au, acct: newAccount("W", "proposer", 7)}
+				*e = c05Env{prom: true, version: cb.v, blinded: cb.blinded, auction: au, acct: newAccount("W", "proposer", 7)}
 				e.slotOff = phase0.Slot(mc.Choose(2))
 				e.graffiti = []string{"ok", "error", "none"}[mc.Choose(3)]
 				e.sign = []string{"ok", "error"}[mc.Choose(2)]
